@@ -52,4 +52,59 @@ def specFixMod (T : FTy) (a b : Int) : Except NumErr Int :=
 def specFixSat (T : FTy) (op : Op) (a b : Int) : Except NumErr Int :=
   if op.divides ∧ b = 0 then .error .divZero else .ok (clamp T.raw (exactRaw T.scale op a b))
 
+/-! ### `multiplyDivide` -/
+
+/-- the cases of `RoundingRule` -/
+inductive Rounding where
+  | towardZero | awayFromZero | nearestHalfAway | nearestHalfEven
+  deriving DecidableEq, Repr
+
+/-- the rational `n / d` (`d ≠ 0`) rounded to an integer by the rule: `q` is the quotient truncated toward
+    zero, `q + sign(n/d)` its neighbour away from zero; the nearest rules compare twice the remainder with
+    the divisor and differ only on an exact tie (away from zero / to the even neighbour) -/
+def roundDiv (r : Rounding) (n d : Int) : Int :=
+  let q := Int.tdiv n d
+  let rem := Int.tmod n d
+  if rem = 0 then q else
+  let away := q + Int.sign n * Int.sign d
+  match r with
+  | .towardZero => q
+  | .awayFromZero => away
+  | .nearestHalfAway => if d.natAbs ≤ 2 * rem.natAbs then away else q
+  | .nearestHalfEven =>
+    if d.natAbs < 2 * rem.natAbs then away
+    else if 2 * rem.natAbs < d.natAbs then q
+    else if q % 2 = 0 then q else away
+
+/-- C15: `a.multiplyDivide(b, c, rounding)`: the values are `a/s`, `b/s`, `c/s`, so the exact result
+    `(a/s)(b/s)/(c/s)` is `(ab/c)/s` — the raw result is the rational `ab/c` rounded to an integer by the
+    rule (no intermediate rounding), overflow / underflow exactly when that is out of range, division by
+    zero for a zero divisor (whatever the other operands) -/
+def specMulDiv (T : FTy) (r : Rounding) (a b c : Int) : Except NumErr Int :=
+  if c = 0 then .error .divZero else classify T.raw (roundDiv r (a * b) c)
+
+/-! ### The input shape of the known defect of the external library's 128-bit division
+
+`onflow/fixed-point` v0.1.1, `div192by128` (behind `FMD`, hence behind `/`, `saturatingDivide` and
+`multiplyDivide` of Fix128 / UFix128): when the truncated interim remainder equals the truncated divisor the
+code *assumes* that the next 64-bit quotient word is `2^64 − 1`; it can be `2^64 − 2`.  Then the low word
+comes out one too large (with a wrapped remainder, so a rounding rule may add another unit or report an
+overflow), and when it happens in the first of the two passes (numerator ≥ 2^192) the result is garbage or
+the library panics.  Necessary for it: the divisor, stripped of its trailing zero bits, needs more than 64
+bits, and a 64-bit word of the true truncated quotient is `2^64 − 2`. -/
+
+def stripTwos : Nat → Nat → Nat
+  | 0, d => d
+  | f + 1, d => if d % 2 = 0 ∧ d ≠ 0 then stripTwos f (d / 2) else d
+
+def w64 : Nat := 18446744073709551616
+
+/-- the low word of the true quotient `n / d` is `2^64 − 2`, wide divisor -/
+def div128SuspectLow (n d : Nat) : Bool :=
+  decide (w64 ≤ stripTwos 64 d) && (n / d) % w64 == w64 - 2
+
+/-- the second word of the true quotient is `2^64 − 2`, wide divisor -/
+def div128SuspectHigh (n d : Nat) : Bool :=
+  decide (w64 ≤ stripTwos 64 d) && (n / d / w64) % w64 == w64 - 2
+
 end Verif.Spec.FixArith
